@@ -1,5 +1,6 @@
 """C14 - delegation locks honour the certificate key, time window and delegability."""
 import random, sys
+from ..par import SafePool
 from ..common import Report, REPO
 from .. import scncheck
 from ..ref import ed25519 as E
@@ -150,7 +151,7 @@ def main(tier: str, seed: int) -> int:
     scncheck.mc(rep, 'Delegation', 'mc', INV, run_mc, consts={'MaxChain': 2 if quick else 3}, workers=16)
     import multiprocessing as mp
     n = 6000 if quick else 40000
-    with mp.get_context('fork').Pool(14) as pool:
+    with SafePool(14) as pool:
         cases = [c for ch in pool.map(record_random, [(seed * 61 + i, n // 28) for i in range(28)]) for c in ch]
     scncheck.judge(rep, 'Delegation', ['AcceptIffValidChain', 'TypeOK'], cases, 'random delegation chains', consts={'MaxChain': 0})
     return rep.finish()
